@@ -423,7 +423,7 @@ func init() {
 // pointers, interfaces and nested structs. Monotone, so documented orderings (fast <= slow) and
 // equalities (paired max/min periods) are preserved.
 func scalePeriods(v reflect.Value, k int, depth int) {
-	if depth > 6 || k <= 1 {
+	if depth > 16 || k <= 1 {
 		return
 	}
 	switch v.Kind() {
@@ -497,3 +497,35 @@ func (ii *IndInstance) Build() func(in []<-chan F) []<-chan F {
 }
 
 func (ii *IndInstance) String() string { return fmt.Sprintf("%s idle=%d", ii.E.Name, ii.Idle) }
+
+// maxIdle returns the largest IdlePeriod() declared by anything reachable from v (the strategy's
+// indicators, sub-strategies, moving averages), or 0.
+func maxIdle(v reflect.Value, depth int) int {
+	if depth > 16 || !v.IsValid() {
+		return 0
+	}
+	best := 0
+	switch v.Kind() {
+	case reflect.Ptr, reflect.Interface:
+		if v.IsNil() {
+			return 0
+		}
+		if v.Kind() == reflect.Ptr {
+			if m := v.MethodByName("IdlePeriod"); m.IsValid() && m.Type().NumIn() == 0 && m.Type().NumOut() == 1 && v.CanInterface() {
+				best = max(best, int(m.Call(nil)[0].Int()))
+			}
+		}
+		best = max(best, maxIdle(v.Elem(), depth+1))
+	case reflect.Struct:
+		for i := 0; i < v.NumField(); i++ {
+			if v.Type().Field(i).IsExported() {
+				best = max(best, maxIdle(v.Field(i), depth+1))
+			}
+		}
+	case reflect.Slice:
+		for i := 0; i < v.Len(); i++ {
+			best = max(best, maxIdle(v.Index(i), depth+1))
+		}
+	}
+	return best
+}
